@@ -283,12 +283,12 @@ impl Prop for C09Prop {
         let mut rng = Rng::new(seed, "config");
         let specs = Specs::from_index(idx as usize % 96);
         let mut case = Case::new("C09", seed, specs);
-        let regime = *rng.pick(&[gen::WeightRegime::AllNan, gen::WeightRegime::Dyadic, gen::WeightRegime::SmallInt, gen::WeightRegime::Nasty, gen::WeightRegime::Mixed]);
-        let o = gen::HistOpts { specs, max_ops: 24, regime, derived: false, restart: true, names_min: 2, names_max: 6, dup_bias: 35 };
+        let regime = *rng.pick(&[gen::WeightRegime::AllNan, gen::WeightRegime::Dyadic, gen::WeightRegime::SmallInt, gen::WeightRegime::Nasty, gen::WeightRegime::Mixed, gen::WeightRegime::Extreme, gen::WeightRegime::NearEqual, gen::WeightRegime::Tiny]);
+        let o = gen::HistOpts { specs, max_ops: 24, regime, derived: false, restart: true, names_min: 2, names_max: 6, dup_bias: 35, big: rng.chance(1, 100) };
         let mut wr = Rng::new(seed, "workload");
         case.ops = gen::gen_history(&mut wr, &o);
         let k = gen::keyings(seed, 2);
-        case.envs = vec![Env { keying: k[(idx % 2) as usize], pool: 1, sched: 0 }];
+        case.envs = vec![Env { keying: k[(idx % 2) as usize], pool: gen::pool_size(seed, 0), sched: crate::core::rng::mix(seed, 77) }];
         case
     }
     fn run_env(&self, case: &Case, _env: &Env, cx: &mut Ctx) {
